@@ -29,6 +29,10 @@ ASSUMPTIONS = [
 
 def run(ctx: Ctx):
     model = ctx.model
+    from .common_node import names_resolve
+    names_resolve(ctx, "C09-RN")
+    from .common_node import single_transmit_gate
+    single_transmit_gate(ctx, "C09-R6")
     nc = model.cls("node.node", "Node")
     route_answer_discipline(ctx, "C09-R1")
     waiting_table_keys(ctx, "C09-R3")
